@@ -64,7 +64,7 @@ Proof.
 Qed.
 
 Section T.
-  Variable fixed : bool.
+  Variable fixed : fixes.
   Variable whats : list Z.
   Variable lods : list lod.
   Variable by_ : list Z.
@@ -89,7 +89,7 @@ Section T.
     let n := length (fst hw) in
     let ks := map rkey (pass_flat' qi) in
     abs (st_of (do_pass' (st, hm, qi, cols) hw)) =
-      a_pad (if fixed then n else 1%nat) ks (fold_left (a_upsert (if fixed then cols else qi) n) ks (abs st)) /\
+      a_pad (if f_pad fixed then n else 1%nat) ks (fold_left (a_upsert (if f_pad fixed then cols else qi) n) ks (abs st)) /\
     hm_of (do_pass' (st, hm, qi, cols) hw) = hm || snd (pass_rows' qi) /\
     qi_of (do_pass' (st, hm, qi, cols) hw) = S qi /\
     cols_of (do_pass' (st, hm, qi, cols) hw) = (cols + n)%nat.
@@ -131,6 +131,7 @@ End T.
 
 (* ---------- one column per requested function ---------- *)
 Section Columns.
+  Variable fx : fixes.
   Variable whats : list Z.
   Variable lods : list lod.
   Variable by_ : list Z.
@@ -140,62 +141,67 @@ Section Columns.
   Variables num desired : Z.
   Variable store : nat -> nat -> list (list row).
 
-  (* repaired variant: for every number of functions, provided no function group is handed the same (time, tags) twice *)
+  (* padding repaired (f_pad): for every number of functions, provided no function group is handed the same
+     (time, tags) twice; the other switches are arbitrary *)
   Lemma fold_pass_aligned_fixed : forall hws a,
-    (forall p, NoDup (map rkey (pass_flat true lods from to fe num store p))) ->
+    f_pad fx = true ->
+    (forall p, NoDup (map rkey (pass_flat fx lods from to fe num store p))) ->
     NoDup (map fst (abs (st_of a))) ->
     (forall k m, In (k, m) (abs (st_of a)) -> m = cols_of a) ->
-    let r := fold_left (do_pass true lods by_ by_s from to fe num desired store) hws a in
+    let r := fold_left (do_pass fx lods by_ by_s from to fe num desired store) hws a in
     forall k m, In (k, m) (abs (st_of r)) -> m = cols_of r.
   Proof.
-    induction hws as [|hw hws IH]; intros [[[st hm] qi] cols] Hnd Hst Hall; [exact Hall | rewrite fl_cons].
+    induction hws as [|hw hws IH]; intros [[[st hm] qi] cols] Hp Hnd Hst Hall; [exact Hall | rewrite fl_cons].
     apply IH; auto.
-    - destruct (do_pass_spec true lods by_ by_s from to fe num desired store st hm qi cols hw) as [E _].
+    - destruct (do_pass_spec fx lods by_ by_s from to fe num desired store st hm qi cols hw) as [E _].
       rewrite E, a_pad_keys. apply a_fold_nodup; exact Hst.
-    - destruct (do_pass_spec true lods by_ by_s from to fe num desired store st hm qi cols hw) as [E [_ [_ Ec]]].
-      rewrite E, Ec. intros k m Hin.
-      apply (a_pass_aligned cols (length (fst hw)) (map rkey (pass_flat true lods from to fe num store qi)) (abs st) Hst (Hnd qi) Hall k m Hin).
+    - destruct (do_pass_spec fx lods by_ by_s from to fe num desired store st hm qi cols hw) as [E [_ [_ Ec]]].
+      rewrite E, Ec, Hp. intros k m Hin.
+      apply (a_pass_aligned cols (length (fst hw)) (map rkey (pass_flat fx lods from to fe num store qi)) (abs st) Hst (Hnd qi) Hall k m Hin).
   Qed.
 
   Theorem one_column_fixed :
-    (forall p, NoDup (map rkey (pass_flat true lods from to fe num store p))) ->
-    forall o, In o (table_rows true whats lods by_ by_s from to fe num desired store) ->
+    f_pad fx = true ->
+    (forall p, NoDup (map rkey (pass_flat fx lods from to fe num store p))) ->
+    forall o, In o (table_rows fx whats lods by_ by_s from to fe num desired store) ->
     length (o_data o) = length whats.
   Proof.
-    intros Hnd o Hin. unfold table_rows in Hin.
-    pose proof (fold_pass_aligned_fixed (handler_whats whats) ([], false, O, O) Hnd) as H.
-    pose proof (fold_pass_cols true lods by_ by_s from to fe num desired store (handler_whats whats) ([], false, O, O)) as [Hc _].
-    fold (assemble true whats lods by_ by_s from to fe num desired store) in H, Hc.
-    destruct (assemble true whats lods by_ by_s from to fe num desired store) as [[[st hm] qi] cols].
+    intros Hp Hnd o Hin. unfold table_rows in Hin.
+    pose proof (fold_pass_aligned_fixed (handler_whats whats) ([], false, O, O) Hp Hnd) as H.
+    pose proof (fold_pass_cols fx lods by_ by_s from to fe num desired store (handler_whats whats) ([], false, O, O)) as [Hc _].
+    fold (assemble fx whats lods by_ by_s from to fe num desired store) in H, Hc.
+    destruct (assemble fx whats lods by_ by_s from to fe num desired store) as [[[st hm] qi] cols].
     simpl in H, Hc. rewrite handler_whats_total in Hc.
     apply (Permutation_in _ (sort_o_perm fe st)) in Hin.
     rewrite <- Hc. apply (H (NoDup_nil _) (fun _ _ F => match F with end) (okey o)).
     change (okey o, length (o_data o)) with (absO o). apply in_map; exact Hin.
   Qed.
 
-  (* the code as it is: at most tsValueCount = 7 requested functions (one function group) *)
+  (* any variant, in particular the code as it is: at most tsValueCount = 7 requested functions (one function group) *)
   Theorem one_column_upto7 :
     (length whats <= ts_value_count)%nat ->
-    NoDup (map rkey (pass_flat false lods from to fe num store O)) ->
-    panics false whats lods from to fe num store = false /\
-    forall o, In o (table_rows false whats lods by_ by_s from to fe num desired store) ->
+    NoDup (map rkey (pass_flat fx lods from to fe num store O)) ->
+    panics fx whats lods from to fe num store = false /\
+    forall o, In o (table_rows fx whats lods by_ by_s from to fe num desired store) ->
     length (o_data o) = length whats.
   Proof.
     intros Hle Hnd.
     destruct whats as [|w0 ws0] eqn:Ew.
-    { split; [reflexivity|]. intros o []. }
+    { split; [unfold panics; destruct (f_panic fx); reflexivity|]. intros o []. }
     rewrite <- Ew in *. assert (Hne : whats <> []) by (rewrite Ew; discriminate).
     destruct (handler_whats_single whats Hle Hne) as [s [q [Eh El]]].
     split.
     - unfold panics; rewrite Eh; simpl. rewrite orb_false_r.
-      assert (X : (ts_value_count <? length s)%nat = false) by (apply Nat.ltb_ge; lia). rewrite X; reflexivity.
+      assert (X : (ts_value_count <? length s)%nat = false) by (apply Nat.ltb_ge; lia). rewrite X.
+      destruct (f_panic fx); reflexivity.
     - intros o Hin. unfold table_rows, assemble in Hin. rewrite Eh in Hin. cbn [fold_left] in Hin.
-      destruct (do_pass_spec false lods by_ by_s from to fe num desired store [] false O O (s, q)) as [E _].
-      destruct (do_pass false lods by_ by_s from to fe num desired store ([], false, O, O) (s, q)) as [[[st hm] qi] cols].
+      destruct (do_pass_spec fx lods by_ by_s from to fe num desired store [] false O O (s, q)) as [E _].
+      destruct (do_pass fx lods by_ by_s from to fe num desired store ([], false, O, O) (s, q)) as [[[st hm] qi] cols].
       simpl in E, Hin. apply (Permutation_in _ (sort_o_perm fe st)) in Hin.
       assert (Hab : In (absO o) (abs st)) by (apply in_map; exact Hin).
       rewrite E in Hab. unfold a_pad in Hab. apply in_map_iff in Hab. destruct Hab as [[k1 m1] [E1 Hin1]].
-      destruct (a_fold_from_nil O (length s) (map rkey (pass_flat false lods from to fe num store O)) [] [] Hnd
+      replace (if f_pad fx then O else O) with O in Hin1 by (destruct (f_pad fx); reflexivity).
+      destruct (a_fold_from_nil O (length s) (map rkey (pass_flat fx lods from to fe num store O)) [] [] Hnd
                   (fun _ _ F => F) (fun _ _ F => match F with end) (NoDup_nil _) k1 m1 Hin1) as [Hk Hm].
       rewrite app_nil_r in Hk. apply in_rev in Hk. apply existsb_key_In in Hk.
       simpl in E1. rewrite Hk in E1. unfold absO in E1. inversion E1; subst. rewrite <- El. lia.
